@@ -17,6 +17,7 @@
 #include <time.h>
 #include <unistd.h>
 
+#include <algorithm>
 #include <cstddef>
 #include <cstdio>
 #include <cstdlib>
@@ -95,6 +96,7 @@ struct Options {
     std::vector<int> prio, prio2;
     long change_at = -1;
     bool static_family = false;    /* explore the static-priority/single-change family instead of the DFS */
+    bool single_outcome = false;   /* every execution must produce the observation of the first one */
     void (*on_point)(int, const void *) = nullptr;
 };
 
@@ -107,6 +109,7 @@ struct Stats {
     int bound_completed = -1;
     bool exhaustive = true;
     bool free_cap_hit = false;
+    std::string extra;             /* additional top-level JSON members: "k":v,"k2":v2 */
 };
 
 static std::string g_harness_name, g_params_json;
@@ -156,7 +159,9 @@ inline std::string stats_json(const Stats & st, const std::string & viol) {
     }
     o << "],\"samples\":[";
     for (size_t i = 0; i < st.samples.size(); i++) o << (i ? "," : "") << st.samples[i];
-    o << "],\"violation\":" << (viol.empty() ? "null" : viol) << "}";
+    o << "],";
+    if (!st.extra.empty()) o << st.extra << ",";
+    o << "\"violation\":" << (viol.empty() ? "null" : viol) << "}";
     return o.str();
 }
 
@@ -209,6 +214,8 @@ class Explorer {
     Stats st;
     Body body;
     Check check;
+    bool have_first = false;
+    std::string first_outcome;
 
     vs_config_t make_cfg() {
         vs_config_t c;
@@ -259,6 +266,11 @@ class Explorer {
         if (check) {
             std::string c2 = check(er.outcome);
             if (!c2.empty()) fail("wrong-result", c2, devs, er.outcome);
+        }
+        if (opt.single_outcome) {
+            if (!have_first) { have_first = true; first_outcome = er.outcome; }
+            else if (er.outcome != first_outcome)
+                fail("schedule-dependent-result", "observation differs from the one under the default schedule: " + first_outcome.substr(0, 300), devs, er.outcome);
         }
         return er;
     }
@@ -496,6 +508,7 @@ struct Args {
         o.hang_s = (int)num("hang", o.hang_s);
         o.replay = str("replay", "");
         o.static_family = num("static", 0) != 0;
+        o.single_outcome = num("single", 0) != 0;
         auto plist = [&](const std::string & k, std::vector<int> & v) {
             std::string t = str(k, "");
             if (t.empty()) return;
